@@ -37,6 +37,9 @@ CLAIMED['C27'] = ("one probe round of a fused replica under the hard and the gra
 CLAIMED['C28'] = ("one probe round of a replica without strategy from an arbitrary state (symbolic clock, time since last successful probe, down-after period, lag and limit; enumerated probe outcome, master status, thread states, row/no row/no privilege): the resulting status equals the reference table of the property; the health probe and the down-after test shared with the master round are checked separately",
     "the master's own round lives inside checkBackendMasterStatus's ticker loop and is covered only through the shared steps (GetPooledConnectWithHealthCheck, ShouldDownAfterNoAlive); health SQL empty (ping + select 1 path); known finding C28-replica-up-without-probe-when-master-down")
 
+CLAIMED['C14'] = ("CalcParams' count, offsets and accept/reject decision equal a MySQL lexical reference (strings with backslash escapes and doubled quotes, quoted identifiers, the three comment forms) on statements 'select I1,I2 T' whose items are ?, 'S', \"S\", `S`, 1/*S*/ with a 2-byte symbolic piece S over the characters that matter to a scanner, and comment tails",
+    "template statements only (free text through the yacc parser is out of reach); natively every replay also cross-checks the reference against the real parser's ParamMarkerExpr count when the text parses; the divergences for escaped quotes, quoted identifiers and comments are known findings C14-calcparams-not-a-lexer")
+
 NA_REASON = "check not built yet (work in progress; see DESIGN.md section 3 for the planned harness)"
 NA = {}
 
